@@ -175,3 +175,83 @@ func verifH_C05_typed_enum() {
 	verifAssert((err == nil) == want, "C05 typed enum: a parameter is accepted exactly when its decoded value is a member of the enum")
 	verifReach("end")
 }
+
+//verif:harness id=C05 tier=quick,thorough witness=end,accepted,rejected bounds="presence of object parameters: an object parameter {r: integer (required or not), s: string} in query (form exploded / form not exploded / deepObject) or header, required or not, next to another query parameter that is sent or not; members r (symbolic digit or a letter) and s sent or not: an absent optional parameter is accepted whatever else the request carries, an absent required one is ErrInvalidRequired, a present one is judged by its members"
+func verifH_C05_object_presence() {
+	where := verifChoose("where", 4) // query form exploded, query form, query deepObject, header
+	rRequired := verifChoose("rRequired", 2) == 1
+	obj := &openapi3.Schema{Type: &openapi3.Types{"object"}, Properties: openapi3.Schemas{"r": verifPrimSchema("integer"), "s": verifPrimSchema("string")}}
+	if rRequired {
+		obj.Required = []string{"r"}
+	}
+	param := &openapi3.Parameter{Name: "obj", In: "query", Required: verifChoose("required", 2) == 1, Schema: &openapi3.SchemaRef{Value: obj}}
+	t, f := true, false
+	switch where {
+	case 0:
+		param.Style, param.Explode = "form", &t
+	case 1:
+		param.Style, param.Explode = "form", &f
+	case 2:
+		param.Style, param.Explode = "deepObject", &t
+	case 3:
+		param.In, param.Name = "header", "X-Obj"
+	}
+	q := url.Values{}
+	hdr := http.Header{}
+	if verifChoose("other", 2) == 1 {
+		q["other"] = []string{"1"}
+		hdr["X-Other"] = []string{"1"}
+	}
+	hasR, hasS := verifChoose("hasR", 2) == 1, verifChoose("hasS", 2) == 1
+	rText := ""
+	rOK := true
+	if hasR {
+		c := verifNondetByteIn("r", "0123456789x")
+		rText = string([]byte{c})
+		rOK = c != 'x'
+	}
+	var pairs []string
+	if hasR {
+		pairs = append(pairs, "r", rText)
+	}
+	if hasS {
+		pairs = append(pairs, "s", "v")
+	}
+	switch where {
+	case 0:
+		for i := 0; i+1 < len(pairs); i += 2 {
+			q[pairs[i]] = []string{pairs[i+1]}
+		}
+	case 1:
+		if len(pairs) > 0 {
+			q["obj"] = []string{verifJoin(pairs, ",")}
+		}
+	case 2:
+		for i := 0; i+1 < len(pairs); i += 2 {
+			q["obj["+pairs[i]+"]"] = []string{pairs[i+1]}
+		}
+	case 3:
+		if len(pairs) > 0 {
+			hdr["X-Obj"] = []string{verifJoin(pairs, ",")}
+		}
+	}
+	input := &RequestValidationInput{Request: &http.Request{Method: "GET", Header: hdr, URL: &url.URL{Path: "/"}}, QueryParams: q, PathParams: map[string]string{}, Options: &Options{}}
+	err := ValidateParameter(context.Background(), input, param)
+	present := hasR || hasS
+	if err == nil {
+		verifReach("accepted")
+	} else {
+		verifReach("rejected")
+	}
+	switch {
+	case !present && param.Required:
+		re, ok := err.(*RequestError)
+		verifAssert(ok && re.Err == ErrInvalidRequired, "C05 object presence: an absent required object parameter is ErrInvalidRequired")
+	case !present:
+		verifAssert(err == nil, "C05 object presence: an absent optional object parameter is accepted, whatever else the request carries")
+	default:
+		want := rOK && (hasR || !rRequired)
+		verifAssert((err == nil) == want, "C05 object presence: a present object parameter is accepted iff its members are well-formed and the required ones present")
+	}
+	verifReach("end")
+}
